@@ -42,7 +42,7 @@ RULE = ("each run draws a server byte stream from a response grammar (every stat
         "class); non-trivial = the stream was corrupted, cut short or segmented")
 PROBES = ["unknown_charset", "nontext_codec", "over_cap", "stall_timeout", "rst_mid_body",
           "fin_without_close_notify", "invalid_header", "must_succeed_core", "tls_entry",
-          "titan_entry", "non2x_with_trailing_bytes"]
+          "titan_entry", "non2x_with_trailing_bytes", "connect_phase_fault"]
 COMPONENTS = {
     "real": ["nauyaca.client.protocol (both protocol classes)", "nauyaca.client.session "
              "(get/upload, wait_for timeouts)", "asyncio transports + sslproto, OpenSSL"],
@@ -307,8 +307,79 @@ def run_case(ch, cfg, variant):
     return out
 
 
+def connect_fault_case(ch, res):
+    """Faults before any response byte: refused / black-holed connect, a server
+    that never answers the ClientHello, a server that answers it with garbage."""
+    from nauyaca.client.session import GeminiClient
+    sim = Sim(ch)
+    net = sim.net
+    fault = ch.pick("cfault", ["refuse", "blackhole", "tls-stall", "tls-garbage", "rst-at-accept"])
+    entry = ch.pick("centry", ["get", "upload"])
+    T = ch.pick("ctimeout", [5.0, 1.0, 30.0])
+    tofu = bool(ch.choose("ctofu", 2))
+    scratch = fresh_dir("c13c")
+    if fault == "tls-stall":
+        ScriptedServer(sim, HOST, 1965, "rsa1", lambda i, s: {"script": [("stall",)], "reader": "never"},
+                       tls=False)
+    elif fault == "tls-garbage":
+        ScriptedServer(sim, HOST, 1965, "rsa1",
+                       lambda i, s: {"script": [("send", b"20 text/plain\r\nthis is not TLS\n"), ("close",)]},
+                       tls=False)
+    elif fault == "rst-at-accept":
+        ScriptedServer(sim, HOST, 1965, "rsa1", lambda i, s: {"script": [("rst",)]}, tls=False)
+    sim.loop.link_for_connect = lambda h, p: ({"outcome": "blackhole"} if fault == "blackhole" else {})
+    out = {}
+
+    async def main():
+        cl = GeminiClient(timeout=T, trust_on_first_use=tofu, tofu_db_path=pathlib.Path(scratch, "t.db"))
+        try:
+            if entry == "get":
+                r = await cl.get(f"gemini://{HOST}/x")
+            else:
+                r = await cl.upload(f"gemini://{HOST}/up", b"content", token="t")
+            out["res"] = ("resp", r.status)
+        except BaseException as e:  # noqa
+            out["res"] = ("exc", type(e).__name__, isinstance(e, Exception)
+                          and not isinstance(e, asyncio.CancelledError))
+        out["t_done"] = net.now
+    status = sim.run(main(), horizon=3 * T + 60.0, max_iterations=400000)
+    if sim.error is not None:
+        raise sim.error
+    r = out.get("res")
+    ctx = dict(fault=fault, entry=entry, timeout=T, tofu=tofu, result=r, t_done=out.get("t_done"))
+    if status != "done" or r is None:
+        res.violate(f"C13/call-never-returned/connect-{fault}/{entry}",
+                    f"the call was still pending when the simulation ran out ({status})", **ctx)
+    else:
+        slow = fault in ("blackhole", "tls-stall")
+        limit = (T + 1.0) if slow else 1.0
+        if out["t_done"] > limit:
+            res.violate(f"C13/connect-fault-not-bounded/{fault}/{entry}",
+                        f"connect-phase fault '{fault}': call ended at {out['t_done']:.3f}, bound "
+                        f"{limit:.3f}", **ctx)
+        if r[0] == "resp":
+            res.violate(f"C13/response-from-nowhere/{fault}/{entry}",
+                        "a response was returned although the server never sent one", **ctx)
+        elif not r[2]:
+            res.violate(f"C13/non-exception-escaped/{r[1]}/{entry}",
+                        f"the call raised {r[1]}, not an ordinary Exception", **ctx)
+        elif slow and r[1] != "TimeoutError":
+            res.violate(f"C13/stall-not-timeout-error/{entry}",
+                        f"'{fault}' ended in {r[1]} instead of TimeoutError", **ctx)
+    res.stats["connect_phase_fault"] += 1
+    res.sim_seconds = net.now
+    res.signature = hashlib.sha256(repr(("connect", fault, entry, T, (r or ("none",))[:2])).encode()
+                                   ).hexdigest()[:16]
+    res.digest = sim.digest()
+    res.nontrivial = True
+    res.sample = ctx
+    return res
+
+
 def run_one(ch):
     res = RunResult()
+    if ch.chance("connectfault", 0.08):
+        return connect_fault_case(ch, res)
     cap = ch.pick("cap", [1 << 20, 4096, 65536, 16384])
     info = gen_stream(ch, cap)
     n = len(info["stream"])
